@@ -61,27 +61,8 @@ def runDraw (rw : Rune → Int) (rest : String) : String :=
 
 /-! lock behaviour of an API call: the regenerated skeleton run under the conditions the model knows -/
 
-structure LEnv where
-  running : Bool := true
-  sameSize : Bool := false
-
-def sem : WLock.Sem LEnv where
-  cond e c :=
-    if c = "!t.running" then !e.running
-    else if c = "t.running" then e.running
-    else if c = "w == t.w && h == t.h" then e.sameSize
-    else false
-  setRunning e b := { e with running := b }
-
-/-- `none` = the call never returns (self-deadlock on the mutex); else (mutex held afterwards, running afterwards) -/
 def callM (name : String) (held running : Bool) (sameSize : Bool := false) : Option (Bool × Bool) :=
-  match Gen.wLockFacts.lookup name with
-  | none => some (held, running)
-  | some sk =>
-    match WLock.run sem sk { held := held } { running := running, sameSize := sameSize } with
-    | (.fall s, e) => (WLock.exitHeld s).map fun h => (h, e.running)
-    | (.returned s, e) => (WLock.exitHeld s).map fun h => (h, e.running)
-    | _ => none
+  WLock.callM Gen.wLockFacts name held running sameSize
 
 structure EvSt where
   held : Bool := false
@@ -149,23 +130,24 @@ def runEv (rest : String) : String :=
     | some (s, t) => (s, match t with | some t => acc.2.1.push t | none => acc.2.1, false)) (({} : EvSt), #[], false)
   if toks.isEmpty then "-" else " ".intercalate toks.toList
 
-def lifeOp (st : EvSt) (op : String) : Option (EvSt × String) :=
+def parseLife (op : String) : Option WLock.LifeOp :=
   match words op with
-  | ["suspend"] => (callM "Suspend" st.held st.running).map fun (h, r) => ({ st with held := h, running := r }, "ok")
-  | ["resume"] => (callM "Resume" st.held st.running).map fun (h, r) => ({ st with held := h, running := r }, if st.running then "err" else "ok")
-  | ["size", w, h] =>
-    let w := toInt! w; let h := toInt! h
-    (callM "SetSize" st.held st.running (w = st.w ∧ h = st.h)).map fun (hd, r) => ({ st with held := hd, running := r, w := w, h := h }, "ok")
-  | ["fini"] => (callM "Fini" st.held st.running).map fun (h, r) => ({ st with held := h, running := r }, "ok")
-  | _ => some (st, "bad-op")
+  | ["suspend"] => some .suspend
+  | ["resume"] => some .resume
+  | ["size", w, h] => some (.setSize (toInt! w) (toInt! h))
+  | ["fini"] => some .fini
+  | _ => none
 
 def runLife (rest : String) : String :=
   let ops := splitTrim rest ";"
-  let (st, toks, dead) := ops.foldl (fun (acc : EvSt × Array String × Bool) op =>
+  let (st, toks, dead) := ops.foldl (fun (acc : WLock.LState × Array String × Bool) op =>
     if acc.2.2 then acc else
-    match lifeOp acc.1 op with
-    | none => (acc.1, acc.2.1.push "dead", true)
-    | some (s, t) => (s, acc.2.1.push t, false)) (({} : EvSt), #[], false)
+    match parseLife op with
+    | none => (acc.1, acc.2.1.push "bad-op", false)
+    | some lop =>
+      match WLock.lifeStep Gen.wLockFacts acc.1 lop with
+      | none => (acc.1, acc.2.1.push "dead", true)
+      | some s => (s, acc.2.1.push (if lop = .resume ∧ acc.1.running then "err" else "ok"), false)) (({} : WLock.LState), #[], false)
   if dead then " ".intercalate toks.toList
   else
     let probe := match callM "Size" st.held st.running with | some _ => "| free" | none => "| held"
